@@ -35,7 +35,7 @@ nev = 0
 with open(out, "w") as f:
     made = 0
     while made < n:
-        schema, pats = jsgen.top_schema(rng, full=False, depth=rng.choice([1, 2, 2, 3]))
+        schema, pats, _kh = jsgen.top_schema(rng, full=False, depth=rng.choice([1, 2, 2, 3]))
         if uses_unsupported_format(schema):
             continue
         try:
